@@ -294,6 +294,14 @@ func genTable(g *simkit.Gen, name string, o GenOpts) TableDef {
 	case "comp":
 		t.Cols = append(t.Cols, ColDef{Name: "org", Type: "int"}, ColDef{Name: "code", Type: "varchar(16)"})
 		t.PK = []string{"org", "code"}
+	case "ubig":
+		// an unsigned 64-bit key whose values need the top bit (snowflake-style ids)
+		t.Cols = append(t.Cols, ColDef{Name: "id", Type: "bigint unsigned"})
+		t.PK = []string{"id"}
+	case "date":
+		// a day as part of the key (one row per organisation and day)
+		t.Cols = append(t.Cols, ColDef{Name: "org", Type: "int"}, ColDef{Name: "day", Type: "date"})
+		t.PK = []string{"org", "day"}
 	default:
 		t.Cols = append(t.Cols, ColDef{Name: "id", Type: "int"})
 		t.PK = []string{"id"}
@@ -329,6 +337,12 @@ func genTable(g *simkit.Gen, name string, o GenOpts) TableDef {
 func genPK(g *simkit.Gen, c ColDef, i int) Val {
 	if strings.HasPrefix(c.Type, "varchar") {
 		return VS(simkit.Pick(g, []string{"k", "p", "q", "z"}) + strconv.Itoa(g.Intn(40)))
+	}
+	if c.Type == "bigint unsigned" {
+		return Val{"u", strconv.FormatUint(uint64(1)<<63+uint64(g.Range(1, 40)), 10)}
+	}
+	if c.Type == "date" {
+		return VT(time.Date(2024, time.Month(1+g.Intn(3)), 1+g.Intn(9), 0, 0, 0, 0, time.UTC))
 	}
 	return VI(int64(g.Range(1, 40)))
 }
